@@ -59,9 +59,86 @@ def close(a, b, rel=1e-9):
     return abs(a - b) <= rel * max(1.0, abs(a), abs(b))
 
 
+def make_phsp(scale, thr):
+    """User-written phase-space factors following PhaseSpaceFactorProtocol: closures of ONE factory (same
+    __qualname__, different behaviour)."""
+    def fixed_channel_phsp(s_, m1_, m2_):
+        return scale * sp.sqrt(sp.Abs(s_ - thr)) / (1 + s_)
+    return fixed_channel_phsp
+
+
+def ff_num(sv, a, b, L, dv):
+    f = lam(("ffnum", L), (s, ma, mb, d), lambda: FormFactor(s, ma, mb, L, d).doit())
+    return complex(f(sv, a, b, dv))
+
+
+def ref_bw_ff(sv, m, g, a, b, L, dv, rho):
+    """The documented definition, assembled here from numbers."""
+    width = g * (ff_num(sv, a, b, L, dv) / ff_num(m * m, a, b, L, dv)) ** 2 * rho(sv) / rho(m * m)
+    return m * g * ff_num(sv, a, b, L, dv) / (m * m - sv - 1j * m * width), width
+
+
 def run_case(c):
     fails = []
     k = c["kind"]
+    if k == "numeric_first":
+        # numbers put into the function API BEFORE doit() (exact rationals from a coarse grid, so that s may
+        # coincide with another argument) against the symbolic tree the theorems are about, evaluated afterwards
+        cls = PHSP[c["phsp"]]
+        L = c["L"]
+        q = {n_: sp.Rational(*c[n_]) for n_ in ("s", "m0", "g0", "ma", "mb", "d")}
+        fl = {n_: float(v) for n_, v in q.items()}
+        for what, build in (
+            ("width", lambda S_, M_, G_, A_, B_, D_: EnergyDependentWidth(S_, M_, G_, A_, B_, L, D_, phsp_factor=cls)),
+            ("breit_wigner", lambda S_, M_, G_, A_, B_, D_: relativistic_breit_wigner_with_ff(S_, M_, G_, A_, B_, L, D_, phsp_factor=cls)),
+            ("form_factor", lambda S_, M_, G_, A_, B_, D_: FormFactor(S_, A_, B_, L, D_)),
+        ):
+            f = lam(("nf", what, c["phsp"], L), (s, m0, g0, ma, mb, d), lambda: build(s, m0, g0, ma, mb, d).doit())
+            with_symbols = complex(f(fl["s"], fl["m0"], fl["g0"], fl["ma"], fl["mb"], fl["d"]))
+            try:
+                direct = complex(sp.N(build(q["s"], q["m0"], q["g0"], q["ma"], q["mb"], q["d"]).doit()))
+            except Exception as exc:  # noqa: BLE001
+                fails.append((f"numeric_first_exception/{what}", f"{what} with numbers inserted before doit(): {type(exc).__name__}: {exc}"[:250]))
+                continue
+            if with_symbols != with_symbols or direct != direct or abs(with_symbols) == float("inf"):
+                continue
+            if not close(with_symbols, direct, 1e-8):
+                fails.append((f"numeric_first/{what}/{c['phsp']}", f"{what}(L={L}) with numbers inserted before doit() = {direct}, "
+                              f"the symbolic expression evaluated at the same numbers = {with_symbols}"))
+        return fails
+    if k == "closure_pair":
+        # history: the same resonance arguments with a first, then a second user-written phase-space closure
+        L = c["L"]
+        for scale, thr in c["phsp_params"]:
+            rho_sym = make_phsp(sp.Float(scale), sp.Float(thr))
+            rho = lambda x, scale=scale, thr=thr: scale * abs(x - thr) ** 0.5 / (1 + x)  # noqa: E731
+            want_bw, want_w = ref_bw_ff(c["s"], c["m0"], c["g0"], c["ma"], c["mb"], L, c["d"], rho)
+            args = [sp.Float(c[n_]) for n_ in ("s", "m0", "g0", "ma", "mb")]
+            if c["symbolic"]:
+                sy = (s, m0, g0, ma, mb, d)
+                vals = {s: c["s"], m0: c["m0"], g0: c["g0"], ma: c["ma"], mb: c["mb"], d: c["d"]}
+                got_w = complex(sp.N(EnergyDependentWidth(s, m0, g0, ma, mb, L, d, phsp_factor=rho_sym).doit().xreplace(vals)))
+                got_bw = complex(sp.N(relativistic_breit_wigner_with_ff(s, m0, g0, ma, mb, L, d, phsp_factor=rho_sym).doit().xreplace(vals)))
+            else:
+                got_w = complex(sp.N(EnergyDependentWidth(*args, L, sp.Float(c["d"]), phsp_factor=rho_sym).doit()))
+                got_bw = complex(sp.N(relativistic_breit_wigner_with_ff(*args, L, sp.Float(c["d"]), phsp_factor=rho_sym).doit()))
+            particle = qrules.particle.Particle(name="R", latex="R", pid=99, spin=1, mass=c["m0"], width=c["g0"])
+            sy2 = {n_: sp.Symbol(n_, nonnegative=True) for n_ in ("m_12", "m_1", "m_2")}
+            pool = TwoBodyKinematicVariableSet(sy2["m_12"], sy2["m_1"], sy2["m_2"], sp.Symbol("theta"), sp.Symbol("phi"),
+                                               angular_momentum=L)
+            expr, defaults = RelativisticBreitWignerBuilder(True, True, rho_sym)(particle, pool)
+            sub = dict(defaults)
+            sub.update({sy2["m_12"]: c["s"] ** 0.5, sy2["m_1"]: c["ma"], sy2["m_2"]: c["mb"]})
+            sub[sp.Symbol("d_{R}", positive=True)] = c["d"]
+            got_builder = complex(sp.N(expr.doit().xreplace(sub)))
+            tag = f"user phase-space closure (scale={scale}, threshold={thr})"
+            if not close(got_w, want_w, 1e-8):
+                fails.append(("custom_phsp_width", f"{tag}: width {got_w} vs definition {want_w}"))
+            if not close(got_bw, want_bw, 1e-8):
+                fails.append(("custom_phsp_function", f"{tag}: function API {got_bw} vs definition {want_bw}"))
+            if not close(got_builder, want_bw, 1e-8):
+                fails.append(("custom_phsp_builder", f"{tag}: builder API {got_builder} vs definition {want_bw}"))
+        return fails
     if k == "width":
         cls = PHSP[c["phsp"]]
         L = c["L"]
@@ -134,8 +211,21 @@ def gen_cases(seed, n):
     rng = random.Random(seed)
     out = []
     names = list(PHSP)
+    grid = [(1, 2), (1, 1), (3, 2), (2, 1), (1, 4), (3, 1), (5, 2), (4, 1)]
     for i in range(n):
         k = i % 3
+        if i % 10 == 9:
+            out.append({"kind": "numeric_first", "phsp": names[(i // 10) % len(names)], "L": rng.choice([0, 1, 2, 3, 4]),
+                        **{n_: rng.choice(grid) for n_ in ("s", "m0", "g0", "d")},
+                        "ma": rng.choice([(1, 4), (1, 2), (1, 8)]), "mb": rng.choice([(1, 4), (1, 2), (1, 8)])})
+            continue
+        if i % 10 == 4:
+            a, b = rng.uniform(0.05, 0.6), rng.uniform(0.05, 0.6)
+            out.append({"kind": "closure_pair", "L": rng.choice([0, 1, 2]), "symbolic": rng.random() < 0.5,
+                        "phsp_params": [[round(rng.uniform(0.5, 2), 3), round(rng.uniform(0.0, 1.0), 3)] for _ in range(2)],
+                        "s": (a + b + rng.uniform(0.1, 1.5)) ** 2, "m0": a + b + rng.uniform(0.1, 1.5),
+                        "g0": rng.uniform(0.05, 0.5), "ma": a, "mb": b, "d": rng.uniform(0.5, 3)})
+            continue
         if k == 0:
             a, b = rng.uniform(0.05, 1.5), rng.uniform(0.05, 1.5)
             if rng.random() < 0.3:
